@@ -344,7 +344,7 @@ def complement_rule(ctx):
 
 def duplicates_rule(ctx):
     repo = ctx.repo
-    r = ctx.rule("R4.3", "duplicate Dirichlet entries: every consumer of the raw Dirichlet dof list sums duplicates (COO constructor) or is idempotent (mask); the Lagrange path must not add one multiplier row per raw entry", min_instances=3)
+    r = ctx.rule("R4.3", "duplicate Dirichlet entries: every consumer of the raw Dirichlet dof list sums duplicates (COO constructor) or is idempotent (mask); the Lagrange path is R4.7", min_instances=2)
     simu = repo.cls(SIMU)
     # (a) COO constructor in __Solver_Get_Dirichlet_A_x (r1/r2) and Bc_vector_Dirichlet
     from ..flow import Locals
@@ -367,24 +367,7 @@ def duplicates_rule(ctx):
             r.ok(f"{mname}: csr_matrix((Dirichlet values, (Dirichlet dofs, 0)), ...) sums repeated dofs")
         else:
             r.fail(f.qualname, "coo", f.file, f.lineno, mname, "the Dirichlet vector is no longer built by the duplicate-summing COO constructor from (values, Bc_dofs_Dirichlet)")
-    # (b) Lagrange path
-    mod = repo.module(SOLV)
-    f = mod.functions["__Solver_2"]
-    r.instance(fn=f.qualname)
-    L2 = Locals(f.node)
-    raw_names = {nm for nm, v in L2.defs.items() if isinstance(v, ast.Call) and (dotted(v.func) or "").endswith("Bc_dofs_Dirichlet")}
-    per_entry = False
-    if raw_names:
-        # a count len(raw) sizing the multiplier rows, raw used as an index of the system matrix, and no de-duplication
-        uses_len = any(isinstance(n, ast.Call) and dotted(n.func) == "len" and n.args and isinstance(n.args[0], ast.Name) and n.args[0].id in raw_names for n in ast.walk(f.node))
-        stores = [n for n in ast.walk(f.node) if isinstance(n, ast.Assign) and isinstance(n.targets[0], ast.Subscript) and raw_names & {x.id for x in ast.walk(n.targets[0].slice) if isinstance(x, ast.Name)}]
-        dedup = any(isinstance(n, ast.Call) and (dotted(n.func) or "") in ("np.unique",) and n.args and isinstance(n.args[0], ast.Name) and n.args[0].id in raw_names for n in ast.walk(f.node))
-        per_entry = uses_len and bool(stores) and not dedup
-    if per_entry:
-        r.fail(f.qualname, "multiplier-row-per-entry", f.file, f.lineno, "__Solver_2",
-               f"the Lagrange path adds one multiplier row per *entry* of Bc_dofs_Dirichlet (duplicates included) and assigns b[row] = value*alpha: a dof constrained twice yields two identical rows (singular bordered matrix) instead of the sum convention of the elimination solver")
-    else:
-        r.ok("__Solver_2 does not add one multiplier row per raw Dirichlet entry")
+    # (b) the Lagrange path is decided by interpretation in R4.7 (one multiplier row per dof, summed value)
 
 
 class RecMat:
@@ -430,81 +413,142 @@ class RecMat:
             self.store[pq] = vals[k] if vals is not None and len(vals) == len(pairs) else (vals[0] if vals else value)
 
 
-def lagrange_rule(ctx):
-    """R4.7: the bordered Lagrange system scales each multiplier row, its symmetric column and its
-    right-hand side by the same factor, so the multiplier rows state  x_d = value  and  sum c_j x_j = value."""
-    from ..alg import Poly, is_zero
+def _lagrange_system(repo, dd, vv, size=8):
+    """interpret __Solver_2 on a stub simulation whose Dirichlet list is (dd, vv) and which holds one connection
+    condition on dofs (1, 2); returns the recorded bordered matrix, right-hand side and the function"""
+    from ..alg import Poly
     from ..xarray import XArray
+    from .c03 import XCsr
 
-    repo = ctx.repo
-    r = ctx.rule("R4.7", "Lagrange-multiplier system: every multiplier row, its symmetric column and its right-hand side carry the same scale factor (rows state x_d = value, sum_j c_j x_j = value)", min_instances=2)
     mod = repo.module(SOLV)
     f = mod.functions["__Solver_2"]
     alpha = Poly.var("alpha")
     A, b = RecMat(alpha), RecMat(alpha)
-    size = 8
-    dd = [5, 3]  # entered out of increasing order: the far end of a member constrained before the near end
-    vv = [Poly.var("v0"), Poly.var("v1")]
-    from .c03 import XCsr
-
+    n = len(dd)
     # what _Solver_Apply_Dirichlet returns with the matrix: the (size, 1) sparse vector of the prescribed values (canonical
-    # CSR: its .data is ordered by dof number, not by entry)
-    xvec = XCsr((XArray((2,), vv), (XArray((2,), dd), XArray((2,), [0, 0]))), shape=(size, 1))
-    lag = SimpleNamespace(dofs=XArray((2,), [1, 2]), dofsValues=XArray((1,), [Poly.var("c0")]), lagrangeCoefs=XArray((2,), [Poly.var("l0"), Poly.var("l1")]))
+    # CSR: its .data is ordered by dof number, not by entry; repeated dofs are summed by the constructor)
+    xvec = XCsr((XArray((n,), list(vv)), (XArray((n,), list(dd)), XArray((n,), [0] * n))), shape=(size, 1))
+    lag = SimpleNamespace(dofs=XArray((2,), [1, 2]), dofsValues=XArray((1,), [Poly.var("c0")]), lagrangeCoefs=XArray((2,), [Poly.var("l0"), Poly.var("l1")]), problemType="pt")
     simu = SimpleNamespace(
         mesh=SimpleNamespace(Nn=4), Get_dof_n=lambda pt=None: 2,
         _Solver_Apply_Neumann=lambda pt: b, _Solver_Apply_Dirichlet=lambda pt, bb, res: (A, xvec),
-        Bc_dofs_Dirichlet=lambda pt=None: XArray((2,), dd), Bc_values_Dirichlet=lambda pt=None: XArray((2,), vv),
-        Bc_Lagrange=[lag], Get_x0=lambda pt=None: XArray((size,), [0] * size), _verbosity=False,
+        Bc_dofs_Dirichlet=lambda pt=None: XArray((n,), list(dd)), Bc_values_Dirichlet=lambda pt=None: XArray((n,), list(vv)),
+        Bc_Lagrange=[lag], Get_x0=lambda pt=None: XArray((size,), [0] * size), _verbosity=False, problemType="pt",
     )
     I = Interp(repo, extra_builtins={"MPI_SIZE": 1, "Tic": lambda *a, **k: Sink()})
+    seen = {}
 
     def hook(fn, args, kwargs):
         from .. import xeval
 
         if isinstance(fn, FuncInfo) and fn.name == "_Solve_Axb":
-            return XArray((size + 3,), [Poly.var(f"x{i}") for i in range(size + 3)])
+            x0 = args[4] if len(args) > 4 else kwargs.get("x0")
+            seen["n"] = XArray.from_nested(x0).shape[0]
+            return XArray((seen["n"],), [Poly.var(f"x{i}") for i in range(seen["n"])])
         if isinstance(fn, xeval._NpAttr) and fn.path == "append":
             return XArray.from_nested(list(XArray.from_nested(args[0]).data) + list(XArray.from_nested(args[1]).data))
         return NotImplemented
 
     I.call_hook = hook
-    r.instance(fn=f.qualname)
-    I.call_function(f, [simu, Opaque("pt")])
-    bad = None
-    for k, d in enumerate(dd):
-        row = size + k
-        arc, acr, rhs = A.store.get((row, d)), A.store.get((d, row)), b.store.get((row, 0))
-        if arc is None or acr is None or rhs is None:
-            bad = f"Dirichlet multiplier row {k}: missing entries"
-        elif not is_zero(arc - acr):
-            bad = f"Dirichlet multiplier row {k}: A[row, dof] = {arc!r} but A[dof, row] = {acr!r} (not symmetric)"
-        elif not is_zero(rhs - arc * vv[k]):
-            bad = f"Dirichlet multiplier row {k}: right-hand side {rhs!r} is not (row coefficient {arc!r}) x (prescribed value {vv[k]!r}): the row enforces a scaled value"
-    if bad:
-        r.fail(f.qualname, "dirichlet-rows", f.file, f.lineno, "__Solver_2", bad)
-    else:
-        r.ok("Dirichlet multiplier rows: A[row,d] = A[d,row] = s, b[row] = s * value")
-    r.instance(fn=f.qualname)
-    row = size + len(dd)
-    bad = None
-    coefs = [Poly.var("l0"), Poly.var("l1")]
-    rhs = b.store.get((row, 0))
-    scale = None
-    for j, dj in enumerate([1, 2]):
-        a1, a2 = A.store.get((row, dj)), A.store.get((dj, row))
-        if a1 is None or a2 is None or not is_zero(a1 - a2):
-            bad = f"connection row: entries for dof {dj} missing or not symmetric"
-            break
-        # a1 = s * l_j : the scale must be the same for every j and for the right-hand side
-        if not is_zero(a1 * coefs[0] - (A.store.get((row, 1)) or 0) * coefs[j]):
-            bad = f"connection row: coefficient of dof {dj} is not (common scale) x l_{j}"
-    if bad is None and (rhs is None or not is_zero(rhs * coefs[0] - A.store[(row, 1)] * Poly.var("c0"))):
-        bad = f"connection row: right-hand side {rhs!r} is not (the row's scale) x (condition value c0)"
-    if bad:
-        r.fail(f.qualname, "lagrange-rows", f.file, f.lineno, "__Solver_2", bad)
-    else:
-        r.ok("connection rows: A[i, dofs] = A[dofs, i] = s * coefs, b[i] = s * value")
+    I.call_function(f, [simu, "pt"])
+    # the size the simulation announces for the bordered system (what K, x0 and the saved vectors are resized to)
+    dim = None
+    simu_cls = repo.cls(SIMU)
+    g = simu_cls.methods.get("_Bc_Lagrange_dim")
+    if g is not None:
+        I2 = Interp(repo, extra_builtins={"MPI_SIZE": 1})
+        dim = I2.call_function(g, [simu, "pt"])
+    return f, A, b, seen.get("n"), dim
+
+
+def lagrange_rule(ctx):
+    """R4.7: the bordered Lagrange system holds, for every constrained dof d, exactly ONE multiplier row; that row, its
+    symmetric column and its right-hand side carry the same scale, so the row states  x_d = (sum of the values entered
+    for d); the connection row states  sum c_j x_j = value;  no multiplier row is left empty (singular system) and the
+    number of multipliers is the one the simulation sizes its system with.  Which row serves which dof is free."""
+    from ..alg import Poly, is_zero
+
+    repo = ctx.repo
+    r = ctx.rule("R4.7", "Lagrange-multiplier system: one multiplier row per constrained dof (a dof entered several times: one row, summed value), each row, its symmetric column and its right-hand side carry the same scale factor (rows state x_d = value, sum_j c_j x_j = value); no empty multiplier row; size agrees with _Bc_Lagrange_dim", min_instances=4)
+    size = 8
+    v = [Poly.var(f"v{i}") for i in range(4)]
+    cases = {
+        "distinct": ([5, 3], v[:2]),  # entered out of increasing order: the far end of a member constrained before the near end
+        "repeated": ([5, 3, 5, 5], v[:4]),  # one dof entered three times (documented convention: the values add up)
+    }
+    for cname, (dd, vv) in cases.items():
+        f, A, b, nsys, dim = _lagrange_system(repo, dd, vv, size)
+        r.instance(fn=f.qualname)
+        want = {}
+        for d, val in zip(dd, vv):
+            want[d] = want.get(d, 0) + val
+        rows = sorted({p for (p, q) in A.store if p >= size} | {q for (p, q) in A.store if q >= size})
+        bad = None
+        served = {}
+        conn_rows = []
+        for row in rows:
+            cols = sorted(q for (p, q) in A.store if p == row and q < size and not is_zero(A.store[(p, q)]))
+            if cols == [1, 2] and row not in served.values() and not conn_rows:
+                conn_rows.append(row)
+                continue
+            if len(cols) != 1:
+                bad = f"multiplier row {row - size} couples dofs {cols}: not a Dirichlet row"
+                break
+            d = cols[0]
+            if d in served:
+                bad = f"dof {d} has two multiplier rows ({served[d] - size} and {row - size}): two identical rows make the bordered matrix singular"
+                break
+            served[d] = row
+            arc, acr, rhs = A.store.get((row, d)), A.store.get((d, row)), b.store.get((row, 0))
+            if acr is None or rhs is None:
+                bad = f"multiplier row of dof {d}: missing column entry or right-hand side"
+            elif not is_zero(arc - acr):
+                bad = f"multiplier row of dof {d}: A[row, dof] = {arc!r} but A[dof, row] = {acr!r} (not symmetric)"
+            elif d not in want:
+                bad = f"multiplier row for dof {d}, which is not constrained"
+            elif not is_zero(rhs - arc * want[d]):
+                bad = f"multiplier row of dof {d}: right-hand side {rhs!r} is not (row coefficient {arc!r}) x (sum of the entered values {want[d]!r})"
+            if bad:
+                break
+        if bad is None and set(served) != set(want):
+            bad = f"constrained dofs {sorted(set(want) - set(served))} have no multiplier row"
+        if bad is None and nsys is not None:
+            expect = size + len(want) + 1
+            if nsys != expect:
+                bad = f"the bordered system has {nsys} unknowns for {len(want)} constrained dofs and 1 connection (expected {expect}): {nsys - expect:+d} empty multiplier rows make it singular"
+        if bad is None and dim is not None:
+            try:
+                dim_i = int(dim)
+            except Exception:
+                dim_i = None
+            if dim_i is not None and dim_i != len(want) + 1:
+                bad = f"_Bc_Lagrange_dim announces {dim_i} multipliers, __Solver_2 writes {len(want) + 1}: the assembled matrix and the bordered rows disagree in size"
+        if bad:
+            r.fail(f.qualname, f"dirichlet-rows:{cname}", f.file, f.lineno, "__Solver_2", bad)
+        else:
+            r.ok(f"{cname}: one row per constrained dof, A[row,d] = A[d,row] = s, b[row] = s * (sum of values); sizes agree")
+        r.instance(fn=f.qualname)
+        bad = None
+        coefs = [Poly.var("l0"), Poly.var("l1")]
+        if len(conn_rows) != 1:
+            bad = "no connection row couples dofs (1, 2)"
+        else:
+            row = conn_rows[0]
+            rhs = b.store.get((row, 0))
+            for j, dj in enumerate([1, 2]):
+                a1, a2 = A.store.get((row, dj)), A.store.get((dj, row))
+                if a1 is None or a2 is None or not is_zero(a1 - a2):
+                    bad = f"connection row: entries for dof {dj} missing or not symmetric"
+                    break
+                # a1 = s * l_j : the scale must be the same for every j and for the right-hand side
+                if not is_zero(a1 * coefs[0] - (A.store.get((row, 1)) or 0) * coefs[j]):
+                    bad = f"connection row: coefficient of dof {dj} is not (common scale) x l_{j}"
+            if bad is None and (rhs is None or not is_zero(rhs * coefs[0] - A.store[(row, 1)] * Poly.var("c0"))):
+                bad = f"connection row: right-hand side {rhs!r} is not (the row's scale) x (condition value c0)"
+        if bad:
+            r.fail(f.qualname, f"lagrange-rows:{cname}", f.file, f.lineno, "__Solver_2", bad)
+        else:
+            r.ok("connection rows: A[i, dofs] = A[dofs, i] = s * coefs, b[i] = s * value")
 
 
 def orphan_rule(ctx):
